@@ -297,7 +297,7 @@ def main(argv=None):
             for f in sorted(os.listdir(corpus)):
                 if f.endswith(".json"):
                     cases.append(json.load(open(os.path.join(corpus, f)))["case"])
-        n_net = 25 if quick else 400
+        n_net = 25 if quick else 100
         for _ in range(n_net):
             rxns, genes = gen_network(rng)
             cases += cases_for_network(rng, rxns, genes, quick)
